@@ -73,13 +73,42 @@ def _setup_tp(eng, st):
     st.env['p'] = z3.Real('p')
 
 
+_NNZ = "tsum(lam2(lambda x, y: (1 if %s[x, y] != 0 else 0), n0), n0)"
+_KEPT = "(en if en <= np.size(ind[0]) else np.size(ind[0]))"
 CONTRACTS['threshold_proportional'] = Contract(
     OTHER, 'threshold_proportional', ['W', 'p', 'copy'], setup=_setup_tp,
     requires=[('weights-nonnegative', CELLS % "W[x, y] >= 0")],
+    ghost_before={
+        # counting argument, anchored before the statements it is about: the cells that survive are exactly the `kept` strongest
+        # positions of the enumeration ind (ranks 0..kept-1 of the descending order I), pairwise distinct cells => their number is kept
+        'if ud == 2': "Wtri = snapshot(W); kept = " + _KEPT + "; "
+                      "check('kept-cells-are-still-nonzero', forall(lambda t: implies(And(t >= 0, t < kept), And(inr(ind[0][I[t]], n), inr(ind[1][I[t]], n), W[ind[0][I[t]], ind[1][I[t]]] != 0)))); "
+                      "check('kept-cells-are-pairwise-distinct', forall(lambda t, u: implies(And(t >= 0, t < u, u < kept), Or(ind[0][I[t]] != ind[0][I[u]], ind[1][I[t]] != ind[1][I[u]])))); "
+                      "check('dropped-ranks-are-zeroed', forall(lambda t: implies(And(t >= kept, t < np.size(ind[0])), W[ind[0][I[t]], ind[1][I[t]]] == 0), pattern=I[t])); "
+                      "check('every-surviving-cell-has-a-kept-rank', forall(lambda x, y: implies(And(inr(x, n), inr(y, n), W[x, y] != 0), "
+                      "And((np.size(ind[0]) - 1 - argsort_inverse(where_index(ind[0], x, y))) >= 0, (np.size(ind[0]) - 1 - argsort_inverse(where_index(ind[0], x, y))) < kept, ind[0][I[(np.size(ind[0]) - 1 - argsort_inverse(where_index(ind[0], x, y)))]] == x, ind[1][I[(np.size(ind[0]) - 1 - argsort_inverse(where_index(ind[0], x, y)))]] == y)))); "
+                      "assume(lemma_image_count(lam2(lambda x, y: (1 if W[x, y] != 0 else 0), n), lam1(lambda t: ind[0][I[t]], kept), lam1(lambda t: ind[1][I[t]], kept), kept, n, "
+                      "lambda x, y: np.size(ind[0]) - 1 - argsort_inverse(where_index(ind[0], x, y))))",
+        'return W': "assume(implies(ud == 2, lemma_tsum_plus_transpose(lam2(lambda x, y: (1 if Wtri[x, y] != 0 else 0), n), lam2(lambda x, y: (1 if W[x, y] != 0 else 0), n), n)))",
+    },
     ensures=[('diagonal-cleared', "forall(lambda x: implies(inr(x, n0), result()[x, x] == 0))"),
              ('symmetric-input-gives-symmetric-output', "implies(" + (CELLS % "arg('W')[x, y] == arg('W')[y, x]") + ", " + (CELLS % "result()[x, y] == result()[y, x]") + ")"),
              # (in the branch taken when np.allclose(W, W.T) holds the output is rebuilt from the upper triangle, so a kept cell carries the weight of the cell or of its mirror cell)
              ('kept-entries-keep-their-weight-others-are-zero', CELLS % "Or(result()[x, y] == 0, And(x != y, Or(result()[x, y] == arg('W')[x, y], result()[x, y] == arg('W')[y, x])))"),
+             ('number-kept-is-the-rounded-share-or-all-links', "And(ud * " + _KEPT + " == " + (_NNZ % "result()") + ", Or(ud == 1, ud == 2))"),
+             ('share-is-the-rounded-fraction-of-the-possible-connections', "rounds_to(en, (n0 * n0 - n0) * p / ud)"),
+             ('kept-are-the-strongest', "forall(lambda t, u: implies(And(t >= 0, t < " + _KEPT + ", u >= " + _KEPT + ", u < np.size(ind[0])), "
+                                        "And(result()[ind[0][I[t]], ind[1][I[t]]] >= arg('W')[ind[0][I[u]], ind[1][I[u]]], Wtri[ind[0][I[u]], ind[1][I[u]]] == 0, "
+                                        "result()[ind[0][I[t]], ind[1][I[t]]] != 0)))"),
              ] + COPY_CLAUSES,
     ensures_raises=[('rejects-only-p-outside-0-1', "And(raised('BCTParamError'), Or(p > 1, p < 0))")])
 CONTRACTS['threshold_proportional'].inputs = [('W', 'W0', 'mat', 'n'), ('copy', 'copy', 'bool'), ('p', 'p', 'real')]
+
+
+def _tp_ghosts(args, result, locs):
+    import numpy as np
+    R = np.asarray(result, dtype=float)
+    return {'Wtri': np.triu(R, 1) if locs.get('ud') == 2 else R.copy()}
+
+
+CONTRACTS['threshold_proportional'].concrete_ghosts = _tp_ghosts
